@@ -27,7 +27,8 @@ pub enum Case {
     /// malformed path text
     BadPath { seed: Bytes, text: String },
     /// a well-formed string (valid checksum) whose fixed fields are wrong: a version byte changed (field 0..=3), the zero byte
-    /// in front of the private key changed (field 4, xprv only), or the string of the other kind given to this parser (field 5)
+    /// in front of the private key changed (field 4, xprv only), the string of the other kind given to this parser (field 5),
+    /// or depth 0 together with a parent fingerprint (6) or a child number (7)
     Reframed { seed: Bytes, path: Vec<u32>, private: bool, field: u8, value: u8 },
 }
 
@@ -108,7 +109,7 @@ impl Property for C08 {
     const ID: &'static str = "C08";
 
     fn rule() -> String {
-        "Seeds of 16..64 bytes and the non-standard lengths 1, 8, 15, 65, 100, 1000; child indices 0, 1, 2^31-1, 2^31, 2^31+1, 2^32-1 and uniform; paths of depth 1..8 (up to 255 in the thorough tier) rendered with m/M, the hardened markers ' h H and an optional trailing slash; corrupted xprv/xpub strings (character replaced, payload byte changed under the old checksum, checksum byte changed, length changed, character dropped/appended); malformed path text. Oracle: reference BIP32 (HMAC-SHA512, CKDpriv, CKDpub, fingerprints, Base58Check serialisation) on num-bigint, validated against BIP32 test vectors 1-3: every step's key, chain code, depth, index, parent fingerprint, xprv and xpub string must match; derive_from_path(text) = iterated derive, also when the path is walked in two legs so that the second derive_from_path starts from a non-master key (derived, or parsed from its string; privately and publicly); public derivation from the neutered parent = neutering the private child; hardened derivation on an xpub is refused; from_string(to_string) preserves every field; every corrupted string is rejected, and so is a well-formed string (valid checksum) whose version bytes are not those of its kind, whose private-key pad byte is not zero, or which is the serialisation of the other kind of key. Non-trivial = path mixing hardened and normal components, an index at a boundary, or a corruption class; distinct by hash of the serialised case.".into()
+        "Seeds of 16..64 bytes and the non-standard lengths 1, 8, 15, 65, 100, 1000; child indices 0, 1, 2^31-1, 2^31, 2^31+1, 2^32-1 and uniform; paths of depth 1..8 (up to 255 in the thorough tier) rendered with m/M, the hardened markers ' h H and an optional trailing slash; corrupted xprv/xpub strings (character replaced, payload byte changed under the old checksum, checksum byte changed, length changed, character dropped/appended); malformed path text. Oracle: reference BIP32 (HMAC-SHA512, CKDpriv, CKDpub, fingerprints, Base58Check serialisation) on num-bigint, validated against BIP32 test vectors 1-3: every step's key, chain code, depth, index, parent fingerprint, xprv and xpub string must match; derive_from_path(text) = iterated derive, also when the path is walked in two legs so that the second derive_from_path starts from a non-master key (derived, or parsed from its string; privately and publicly); public derivation from the neutered parent = neutering the private child; hardened derivation on an xpub is refused; from_string(to_string) preserves every field; every corrupted string is rejected, and so is a well-formed string (valid checksum) whose version bytes are not those of its kind, whose private-key pad byte is not zero, which is the serialisation of the other kind of key, or which claims depth 0 together with a parent fingerprint or a child number (BIP32 test vector 5). Non-trivial = path mixing hardened and normal components, an index at a boundary, or a corruption class; distinct by hash of the serialised case.".into()
     }
 
     fn assumptions() -> Vec<String> {
@@ -147,7 +148,7 @@ impl Property for C08 {
                     1 => any::<u16>().prop_map(Corrupt::DropChar),
                     1 => (0u8..58).prop_map(Corrupt::AppendChar),
                 ]).prop_map(|(seed, path, private, how)| Case::Corrupt { seed, path, private, how }),
-            3 => (seed_strategy(), prop::collection::vec(index_strategy(), 0..3), any::<bool>(), 0u8..6, any::<u8>()).prop_map(|(seed, path, private, field, value)| Case::Reframed { seed, path, private, field, value }),
+            3 => (seed_strategy(), prop::collection::vec(index_strategy(), 0..3), any::<bool>(), 0u8..8, any::<u8>()).prop_map(|(seed, path, private, field, value)| Case::Reframed { seed, path, private, field, value }),
             1 => (seed_strategy(), prop::sample::select(vec!["m/x", "m/2147483648", "0/1", "", "x", "m/1/-1", "n/1", "m/4294967296", "m/1/a'"])).prop_map(|(seed, t)| Case::BadPath { seed, text: t.to_string() }),
         ]
         .boxed()
@@ -348,7 +349,7 @@ impl Property for C08 {
                 let shown = if *private { k.clone() } else { bip32::neuter(&k) };
                 let good = bip32::to_string(&shown);
                 let mut payload = codec::base58check_decode(&good).ok_or_else(|| failure("harness_self_check", "reference string does not decode", "valid"))?;
-                let what = match field % 6 {
+                let what = match field % 8 {
                     f @ 0..=3 => {
                         payload[f as usize] ^= (*value).max(1);
                         format!("version byte {} changed", f)
@@ -356,6 +357,19 @@ impl Property for C08 {
                     4 if *private => {
                         payload[45] = (*value).max(1);
                         "the byte in front of the private key is not zero".to_string()
+                    }
+                    // a master key (depth 0) that names a parent or a child number (BIP32 test vector 5 lists both as invalid)
+                    6 | 7 => {
+                        payload[4] = 0;
+                        if field % 8 == 6 {
+                            payload[5..9].copy_from_slice(&[(*value).max(1), 1, 1, 1]);
+                            payload[9..13].copy_from_slice(&[0, 0, 0, 0]);
+                            "depth 0 with a parent fingerprint".to_string()
+                        } else {
+                            payload[5..9].copy_from_slice(&[0, 0, 0, 0]);
+                            payload[9..13].copy_from_slice(&[*value & 0x80, 0, 0, (*value).max(1)]);
+                            "depth 0 with a child number".to_string()
+                        }
                     }
                     _ => {
                         // the other kind's string
